@@ -45,6 +45,9 @@ pub fn run_case(cx: &mut Ctx) {
         };
         let help = rng.pick(HELPS).to_string();
         let mut labels: Vec<&str> = VALID_LABEL_NAMES[..6].to_vec();
+        // "ab": with the helps "h" / "ha" and the label names "ab" / "b" the end of the help text and the
+        // start of the first label name can trade a character (the dimension signature must tell them apart)
+        labels.push("ab");
         rng.shuffle(&mut labels);
         let nc = rng.usize_below(4);
         let nv = rng.usize_below(3);
